@@ -36,7 +36,7 @@ ASSUMPTIONS = [
 PROBES = ["restart_after_other_use", "feature_all_steps", "resim_old_buffers_checked", "shared_underlier_resim",
           "prev_output_corrupted_then_hedged", "model_raise_then_hedged", "hedger_cast", "listed_hedge",
           "lazy_model", "requires_grad_flag_flipped", "kept_feature_reused", "listed_quote_vs_fresh_pricer", "clone_opposite_grad_mode", "clone_opposite_module_mode",
-          "kept_bs_module_reused", "feature_object_shared_by_two_hedgers", "attribute_assigned_on_live_object", "relisted_between_calls"]
+          "kept_bs_module_reused", "listed_pricer_raised", "feature_object_shared_by_two_hedgers", "attribute_assigned_on_live_object", "relisted_between_calls"]
 
 
 class SimFault(RuntimeError):
@@ -221,7 +221,15 @@ def generate(rng):
 
     while len(ops) < n_ops:
         actor = rng.choice(actors)
-        kind = rng.wchoice([("simulate", 3), ("hedger_op", 6), ("quant", 4), ("cast", 1), ("fault", 10 * fault_rate), ("set_attr", 1)])
+        kind = rng.wchoice([("simulate", 3), ("hedger_op", 6), ("quant", 4), ("cast", 1), ("fault", 10 * fault_rate), ("set_attr", 1),
+                            ("pricer_raises", 0.6 if any(x.get("listed") for x in derivs) else 0)])
+        if kind == "pricer_raises":
+            # F8: the pricing callback of a listed derivative raises once while its quote is read; later quotes, hedges and P&L
+            # are those of the current series all the same
+            dl = rng.choice([x for x in derivs if x.get("listed")])
+            if sim[dl["underlier"]] is not None and not too_short(dl):
+                emit({"op": "pricer_raises", "target": dl["id"]}, actor)
+            continue
         if kind == "set_attr":
             # the user re-parameterises a live object: results afterwards depend on the new attribute only
             listed_ds = [x for x in derivs if x.get("listed")]
@@ -618,6 +626,23 @@ def _execute(program, stats, hist):
             cast_module_outputs(h.inputs, DT[op["dtype"]])
             stats.probe("hedger_cast")
             hist.add(actor=op.get("actor"), op="hedger_to", hedger=op["hedger"], dtype=op["dtype"])
+        elif name == "pricer_raises":
+            dl_ = world.derivatives[op["target"]]
+            pr_ = getattr(dl_, "pricer", None)
+            raised = False
+            if hasattr(pr_, "armed"):
+                pr_.armed = True
+                try:
+                    dl_.spot
+                except RuntimeError:
+                    raised = True
+                except Exception:
+                    raised = True
+                pr_.armed = False
+            stats.fault("F8_callback_exception")
+            if raised:
+                stats.probe("listed_pricer_raised")
+            hist.add(actor=op.get("actor"), op="pricer_raises", target=op["target"], raised=raised)
         elif name == "relist":
             from ..world import make_pricer
             dl_ = world.derivatives[op["target"]]
